@@ -243,14 +243,20 @@ impl H {
         Value::Object(ent)
     }
 
-    fn pending(&self, ca: &CaHandle, parent: &ParentHandle) -> usize {
+    /// Pending (revocation, certificate) requests of `ca` for `parent`.
+    fn pending2(&self, ca: &CaHandle, parent: &ParentHandle) -> (usize, usize) {
         match self.s.krill.ca_manager().get_ca(ca) {
-            Ok(c) if c.has_parent(parent) => {
-                c.cert_requests(parent).values().map(|v| v.len()).sum::<usize>()
-                    + c.revoke_requests(parent).values().map(|v| v.len()).sum::<usize>()
-            }
-            _ => 0,
+            Ok(c) if c.has_parent(parent) => (
+                c.revoke_requests(parent).values().map(|v| v.len()).sum::<usize>(),
+                c.cert_requests(parent).values().map(|v| v.len()).sum::<usize>(),
+            ),
+            _ => (0, 0),
         }
+    }
+
+    fn pending(&self, ca: &CaHandle, parent: &ParentHandle) -> usize {
+        let (r, c) = self.pending2(ca, parent);
+        r + c
     }
 
     fn truth(&mut self) -> Value {
@@ -268,7 +274,8 @@ impl H {
                 let ent = self.entitlement_now(h, p);
                 parents.insert(
                     p.to_string(),
-                    json!({"pending": self.pending(h, p), "has_pending": ca.has_pending_requests(p), "ent": ent}),
+                    json!({"pending": self.pending(h, p), "revokes": self.pending2(h, p).0, "certs": self.pending2(h, p).1,
+                           "has_pending": ca.has_pending_requests(p), "ent": ent}),
                 );
             }
             let mut children = Map::new();
